@@ -165,6 +165,23 @@ class Index:
                 real = self.resolve_name(m, name) if m in self.mods else None
                 if real in self.funcs:
                     self.funcs.alias[q] = real
+        # a known function that was renamed and keeps its old name as a module-level alias (`is_ptype = is_p_type`): the old name stays the
+        # name of that definition, and the normal form spells calls through the new name with the known one
+        self.renamed = {}       # mod -> {new local name: known name}
+        for q in sorted(KNOWN_FUNCTIONS):
+            if q not in self.funcs and q.count(".") == 1:
+                m, name = q.split(".")
+                if m not in self.mods:
+                    continue
+                v = self.module_globals(m).get(name)
+                if isinstance(v, ast.Name) and "%s.%s" % (m, v.id) in self.funcs:
+                    self.funcs.alias[q] = "%s.%s" % (m, v.id)
+                    self.renamed.setdefault(m, {})[v.id] = name
+        for m, ren in list(self.renamed.items()):
+            for m2, imps in self.imports.items():
+                for local, (src_mod, name, level) in imps.items():
+                    if level >= 1 and src_mod == m and name in ren:
+                        self.renamed.setdefault(m2, {})[local] = ren[name]
         self.known = frozenset(self.funcs[q].qual for q in KNOWN_FUNCTIONS if q in self.funcs)
         # analysis normal form: simple helpers are inlined into their callers (statement level), so that extracting a block of a handler
         # into a private function does not change what the structural rules see; the originals are kept as .orig
